@@ -145,9 +145,9 @@ def parsing_matrix_factory(marker: str, size_marker: str) -> Callable[..., Dict[
         # elements may have been omitted)
         values = np.stack((data["value_0"], data["value_1"], data["value_2"]), axis=1)
         for row, col, vals in zip(data["row_idx"], data["column_idx"], values):
-            vals = vals[~np.isnan(vals)]
-            idx = slice(row - 1, row), slice(col - 1, col - 1 + len(vals))
-            matrix[idx] = vals
+            for k, val in enumerate(vals):  # value k of a line belongs to column col + k, blank values are omitted
+                if not np.isnan(val):
+                    matrix[row - 1, col - 1 + k] = val
 
         # Add symmetrical elements, depending on whether the matrix being represented in lower or upper form
         if lower_upper.upper() == "L":
